@@ -385,5 +385,68 @@ theorem rollbackOut_sim {c : Ctx} {id : TxId} {i : Nat} {o : Out} {gb sb gb' : S
         rw [if_neg hgm]
         cases h3
         exact ⟨_, rfl, hR⟩
+theorem rollbackIn_sim {c : Ctx} {id : TxId} {cur : Nat} {i : Inp} {gb sb gb' : Store × Bals}
+    (hdeb : ∀ id i d cr, AMap.get g.debits ⟨id, bm, i⟩ = some d → AMap.get g.credits d.2 = some cr →
+      addrs.contains cr.sh = false)
+    (h : RbR addrs bm g s gb sb) (hg : rollbackIn c id bm gb cur i = .ok gb') :
+    ∃ sb', rollbackIn c id bm sb cur i = .ok sb' ∧ RbR addrs bm g s gb' sb' := by
+  obtain ⟨gi, bals⟩ := gb
+  obtain ⟨si, bals'⟩ := sb
+  obtain ⟨hb, h⟩ := h
+  dsimp only at hb h
+  subst hb
+  unfold rollbackIn at hg ⊢
+  dsimp only at hg ⊢
+  rw [h.deb.new ⟨id, bm, cur⟩ rfl]
+  have h0 : RbInv addrs bm g s { gi with pendIns := putPendIn gi.pendIns (i.tx, i.idx) id }
+      { si with pendIns := putPendIn si.pendIns (i.tx, i.idx) id } := h.minedEq mined_rfl mined_rfl
+  cases hd : AMap.get gi.debits ⟨id, bm, cur⟩ with
+  | none => rw [hd] at hg; cases hg; exact ⟨_, rfl, rfl, h0⟩
+  | some d =>
+    obtain ⟨amt, ck⟩ := d
+    rw [hd] at hg
+    dsimp only at hg ⊢
+    have h1 := h0.eraseDebit (k := ⟨id, bm, cur⟩) rfl
+    cases hcr : AMap.get gi.credits ck with
+    | none => rw [hcr] at hg; cases hg
+    | some cr =>
+      rw [hcr] at hg
+      dsimp only at hg
+      have hsh : addrs.contains cr.sh = false := by
+        obtain ⟨cr0, a1, a2⟩ := h.cred.orig ck cr hcr
+        rw [← a2]
+        exact hdeb id cur (amt, ck) cr0 (h.debO _ _ hd) a1
+      have hsc : AMap.get si.credits ck = some cr := by
+        rcases h.cred.sub ck with e | ⟨_, cr1, e1, e2⟩
+        · rw [e]; exact hcr
+        · rw [hcr] at e1; cases e1; rw [hsh] at e2; cases e2
+      rw [hsc]
+      dsimp only
+      have h2 := h1.putCredit (k := ck) (v := { cr with spent := false, spentBy := none }) (c := cr) hsh hcr hsc rfl
+      cases ho : AMap.get c.own cr.sh with
+      | none => rw [ho] at hg; cases hg; exact ⟨_, rfl, rfl, h2⟩
+      | some wc =>
+        obtain ⟨w, ch⟩ := wc
+        rw [ho] at hg
+        dsimp only at hg ⊢
+        have h3 := h2.withUnspent (fun u => AMap.put u (w, i.tx, i.idx) ck.blk)
+        split at hg
+        · rename_i hcl
+          rw [if_pos hcl]
+          have e : AMap.get si.game ⟨w, cr.cls = .binding, true, i.tx, ck.blk.height, i.idx⟩ =
+              AMap.get gi.game ⟨w, cr.cls = .binding, true, i.tx, ck.blk.height, i.idx⟩ := by rw [h.game]
+          rw [e]
+          split at hg
+          · cases hg
+          · rename_i hgm
+            rw [if_neg hgm]
+            cases hg
+            exact ⟨_, rfl, rfl, h3.withGame (fun m => AMap.put (AMap.erase m
+              ⟨w, cr.cls = .binding, true, i.tx, ck.blk.height, i.idx⟩)
+              ⟨w, cr.cls = .binding, false, i.tx, ck.blk.height, i.idx⟩ ())⟩
+        · rename_i hcl
+          rw [if_neg hcl]
+          cases hg
+          exact ⟨_, rfl, rfl, h3⟩
 
 end MW.Lemmas.RemoveSim
